@@ -759,6 +759,50 @@ pub fn run(k: &GridCase, focus: Focus, ctx: &mut Ctx) -> Result<Outcome, Failure
     Ok(out)
 }
 
+/// The same operation on an array of a zero-sized element type (owned, and through the trait
+/// defaults): only panic / no panic and the shape are observable.
+pub fn zst_companion(c: usize, r: usize, op: &GOp) -> Verdict {
+    fn go<X: TooDeeOpsMut<()> + CopyOps<()>>(x: &mut X, c: usize, r: usize, op: &GOp, who: &str) -> Verdict {
+        let (valid, res): (bool, Result<(), String>) = match op {
+            GOp::Swap([c1, r1, c2, r2]) => (us(*c1) < c && us(*c2) < c && us(*r1) < r && us(*r2) < r, catch(|| x.swap((us(*c1), us(*r1)), (us(*c2), us(*r2))))),
+            GOp::SwapRows(a, b) => (us(*a) < r && us(*b) < r, catch(|| x.swap_rows(us(*a), us(*b)))),
+            GOp::SwapCols(a, b) => (us(*a) < c && us(*b) < c, catch(|| x.swap_cols(us(*a), us(*b)))),
+            GOp::RowPairMut(a, b) => (us(*a) < r && us(*b) < r && a != b, catch(|| {
+                let (p, q) = x.row_pair_mut(us(*a), us(*b));
+                assert!(p.len() == c && q.len() == c, "row_pair_mut slices have the wrong length");
+            })),
+            GOp::Fill(_) => (true, catch(|| x.fill(()))),
+            GOp::Translate(mc, mr) => (us(*mc) <= c && us(*mr) <= r, catch(|| x.translate_with_wrap((us(*mc), us(*mr))))),
+            GOp::FlipRows => (true, catch(|| x.flip_rows())),
+            GOp::FlipCols => (true, catch(|| x.flip_cols())),
+            GOp::CopyWithin { src, dest } => {
+                let [x0, y0, x1, y1] = src.map(|v| v as u128);
+                let [dx, dy] = dest.map(|v| v as u128);
+                let fits = x0 <= x1 && y0 <= y1 && x1 <= c as u128 && y1 <= r as u128 && dx + (x1 - x0) <= c as u128 && dy + (y1 - y0) <= r as u128;
+                (fits, catch(|| x.copy_within(((us(src[0]), us(src[1])), (us(src[2]), us(src[3]))), (us(dest[0]), us(dest[1])))))
+            }
+            _ => return Ok(()),
+        };
+        if valid {
+            ensure!(res.is_ok(), format!("zst/{}/valid-panicked", who), "{:?} on a {}x{} {} of a zero-sized element type is valid but panicked: {:?}", op, c, r, who, res);
+        } else {
+            ensure!(res.is_err(), format!("zst/{}/invalid-accepted", who), "{:?} on a {}x{} {} of a zero-sized element type must panic but returned", op, c, r, who);
+        }
+        ensure!(x.num_cols() == c && x.num_rows() == r, format!("zst/{}/shape-changed", who), "{:?} changed the shape of a {}x{} {} of a zero-sized element type", op, c, r, who);
+        Ok(())
+    }
+    let mut z: TooDee<()> = if c == 0 { TooDee::default() } else { TooDee::init(c, r, ()) };
+    go(&mut z, c, r, op, "array")?;
+    let mut th = Thin::new(&mut z);
+    go(&mut th, c, r, op, "third-party implementor")?;
+    if c > 0 {
+        let mut big: TooDee<()> = TooDee::init(c + 2, r + 1, ());
+        let mut v = big.view_mut((1, 1), (c + 1, r + 1));
+        go(&mut v, c, r, op, "mutable view")?;
+    }
+    Ok(())
+}
+
 // ---------------------------------------------------------------------------------------------
 // strategies shared by the properties
 
@@ -921,6 +965,10 @@ impl Prop for C13 {
     }
     fn execute(k: &GridCase, ctx: &mut Ctx) -> Verdict {
         let lay = layout(k.cols as usize, k.rows as usize, &k.recv);
+        if lay.c <= 5 && lay.r <= 5 {
+            zst_companion(lay.c, lay.r, &k.op)?;
+            ctx.class("zero-sized-companion");
+        }
         let out = run(k, Focus::Op, ctx)?;
         ctx.class(&format!("{:?}", k.recv.kind));
         if !out.valid {
@@ -1047,6 +1095,10 @@ impl Prop for C14 {
     }
     fn execute(k: &GridCase, ctx: &mut Ctx) -> Verdict {
         let lay = layout(k.cols as usize, k.rows as usize, &k.recv);
+        if lay.c <= 5 && lay.r <= 5 {
+            zst_companion(lay.c, lay.r, &k.op)?;
+            ctx.class("zero-sized-companion");
+        }
         let out = run(k, Focus::Op, ctx)?;
         ctx.class(&format!("{:?}", k.recv.kind));
         if !out.valid {
@@ -1153,6 +1205,10 @@ impl Prop for C15 {
     }
     fn execute(k: &GridCase, ctx: &mut Ctx) -> Verdict {
         let lay = layout(k.cols as usize, k.rows as usize, &k.recv);
+        if lay.c <= 5 && lay.r <= 5 {
+            zst_companion(lay.c, lay.r, &k.op)?;
+            ctx.class("zero-sized-companion");
+        }
         let out = run(k, Focus::Op, ctx)?;
         ctx.class(&format!("{:?}", k.recv.kind));
         if !out.valid {
